@@ -36,6 +36,8 @@ def run(tier):
                 if k in obs and obs[k] != exp[k]:
                     why = "%s() = %s, the specification says %s" % (k, obs[k], exp[k])
                     break
+            if why is None and "other_receiver" in obs:
+                why = "rand_bytes() / accessors called through a reference to the reference, or in fully qualified form, differ: %s" % str(obs["other_receiver"])[:200]
             if why is None and "get_version" in obs and obs["get_version"] != exp["version"]:
                 why = "get_version() = %s" % obs["get_version"]
             if why is None and "get_ciphers" in obs and obs["get_ciphers"] != exp["cipher_suites"]:
